@@ -166,7 +166,7 @@ def do_check(ctx, args, t0):
             undecided.append('%s: %s' % (res.job.name, res.reason))
             continue
         for ob in res.obligations:
-            mine = (prop in ob.tags) if (ob.tags is not None or prop in tag_only) else True
+            mine = (ob.tags is not None and prop in ob.tags) if (ob.tags is not None or prop in tag_only) else True
             if not mine:
                 continue
             if res.job.kind == 'bounded':
@@ -187,10 +187,11 @@ def do_check(ctx, args, t0):
         if res.job.kind == 'bounded':
             bounded.append({'job': res.job.name, 'unwind': res.job.unwind, 'status': res.status})
         if len(samples) < 12:
-            for ob in res.obligations[:60]:
-                if (ob.tags is None or prop in ob.tags) and not ob.pid.startswith('__CPROVER') and 'contract' in ob.desc.lower() or 'C' + prop[1:] in ob.desc:
-                    samples.append({'job': res.job.name, 'obligation': ob.pid, 'description': ob.desc, 'status': ob.status, 'at': ob.loc})
-                    break
+            mine_obs = [ob for ob in res.obligations if ((ob.tags is not None and prop in ob.tags) if (ob.tags is not None or prop in tag_only) else True)]
+            pick = [ob for ob in mine_obs if re.match(r'\s*C\d\d', ob.desc)] or [ob for ob in mine_obs if 'postcondition' in ob.pid or 'loop_invariant' in ob.pid] \
+                or [ob for ob in mine_obs if '.assertion.' in ob.pid and 'CANARY' not in ob.desc]
+            for ob in pick[:1]:
+                samples.append({'job': res.job.name, 'obligation': ob.pid, 'description': ob.desc, 'status': ob.status, 'at': ob.loc})
     if not samples:
         for res in results:
             for ob in res.obligations[:1]:
